@@ -14,7 +14,7 @@ CONSTANTS Threads,        \* model values / strings
 
 FixNames == {"queue-distributor-len",   \* fixes/queue-distributor-len-locked.diff
              "set-producer-lock",       \* fixes/set-producer-holds-lock.diff
-             "set-equal-other",         \*   (same diff) Equal reads other.list under other's lock
+             "set-equal-other",         \*   (same diff) Equal reads other.list under other's lock and ranges over its own map directly
              "collector-resolve-copy"}  \* fixes/collector-resolve-snapshot.diff
 ASSUME Fixed \subseteq FixNames
 
@@ -411,7 +411,10 @@ SetTable(F) ==
         <<C("Set.lock"), R("set.hash"), C("Set.Len@o"), C("Set.isOrdered")>>
         \o (IF "set-equal-other" \in F THEN <<C("oSet.lock"), C("oSet.isOrdered"), U("oset.mtx")>> ELSE <<C("oSet.isOrdered")>>)
         \o <<C("Set.unsafeIterator"), R("set.list"), R("set.hash"),
-             C("Set.Producer@o"), C("Set.Producer()@o"), C("Set.Check@o"), U("set.mtx")>>)
+             C("Set.Producer@o"), C("Set.Producer()@o"), C("Set.Check@o"), U("set.mtx")>>
+        \* as is, unordered set: unsafeIterator is the map's Keys() iterator, whose goroutine (map.go:216-230) goes on
+        \* ranging over s.hash after an early `return false` (set.go:232-234) has released the lock
+        \o (IF "set-equal-other" \in F THEN <<>> ELSE <<R("set.hash")>>))
   \* the same methods with the other set as receiver (only those Equal / Extend read against)
   @@ "Set.Len@o"      :> M("set", FALSE, <<C("oSet.lock"), R("oset.hash"), U("oset.mtx")>>)
   @@ "Set.Check@o"    :> M("set", FALSE, <<C("oSet.lock"), R("oset.hash"), U("oset.mtx")>>)
@@ -476,7 +479,8 @@ Classes ==
   @@ "once"         :> <<"new", "defined", "done">>
   @@ "map"          :> <<"empty", "nonempty">>
   @@ "pool"         :> <<"new", "configured", "finalized">>
-  @@ "set"          :> <<"unordered/fresh", "unordered/empty", "unordered/nonempty", "ordered/empty", "ordered/nonempty">> \* fresh: Synchronize() only, the map not made yet
+  \* fresh: Synchronize() only, the map not made yet; differs: the other set has as many members, but different ones
+  @@ "set"          :> <<"unordered/fresh", "unordered/empty", "unordered/nonempty", "unordered/differs", "ordered/empty", "ordered/nonempty", "ordered/differs">>
   @@ "accessors"    :> <<"any">>
   @@ "accessors.rw" :> <<"any">>
 
